@@ -10,6 +10,13 @@
 (*                        first cell of the first multiset (First)         *)
 (*   InitS/NextS          random walks (tlc -simulate), printed by Finish  *)
 (*   InitR/NextR/EmitR    all leaf ranges [lo, hi)                         *)
+(*   InitM/NextM          many unions (NU = 14..24) for s2intersect.Find:  *)
+(*                        every union is one small cell of its own (adds   *)
+(*                        no overlap) and two regions r1, r2 are added to  *)
+(*                        the unions whose indices are in s1, s2, chosen   *)
+(*                        from IdxSets (the driver puts index sets there   *)
+(*                        whose decimal renderings are easily confused:    *)
+(*                        {1,2,13}/{12,13}, {1,23}/{1,2,3}, ...)           *)
 (***************************************************************************)
 EXTENDS CellUnions, Json
 
@@ -21,6 +28,10 @@ CONSTANT PoolA, PoolB, PoolC   \* cell indices allowed in multiset 1, 2, >= 3
 CONSTANT Strict      \* TRUE: sets (strictly increasing indices) instead of multisets
 CONSTANT PerCell     \* single mode: emit the per-cell results for every cell
 CONSTANT SimLen      \* simulation: total number of cells in a case
+CONSTANT IdxSets     \* many-union family: sets of 0-based union indices sharing a region
+CONSTANT RegionPool  \* many-union family: cells used as shared regions (may nest)
+CONSTANT Fillers     \* many-union family: >= NU pairwise disjoint cells, disjoint from the regions
+CONSTANT Bare        \* many-union family: 0-based indices of unions without a filler cell
 
 VARIABLE t
 
@@ -120,6 +131,22 @@ FindLaws ==
                 /\ \A n \in 1..Len(f) : f[n].cells # <<>> /\ Len(f[n].idx) >= 2
                 /\ \A x \in AllLeaves : Cardinality(Owners(t, x)) >= 2 =>
                        \E n \in 1..Len(f) : x \in LeafSet(f[n].cells) /\ Rng(f[n].idx) = {k - 1 : k \in Owners(t, x)}
+
+\* ---- many unions -------------------------------------------------------------------------
+FillerSeq == SetToSortSeq(Fillers, <)
+ManyUnions(s1, r1, s2, r2) ==
+    [k \in 1..NU |-> (IF (k - 1) \in Bare THEN <<>> ELSE <<FillerSeq[k]>>)
+                     \o (IF (k - 1) \in s1 THEN <<r1>> ELSE <<>>)
+                     \o (IF (k - 1) \in s2 THEN <<r2>> ELSE <<>>)]
+InitM == t \in {<<"many", s1, r1>> : s1 \in IdxSets, r1 \in RegionPool}
+NextM == /\ Len(t) = 3       \* a marker state (a built case has NU >= 14 unions)
+         /\ t' \in {ManyUnions(t[2], t[3], s2, r2) : s2 \in IdxSets \ {t[2]}, r2 \in RegionPool \ {t[3]}}
+\* the family is built as intended: fillers never overlap anything, so every overlap
+\* comes from the two regions, and disjoint regions are owned by exactly s1 and s2
+ManyTheorem ==
+    Full => LET f == Find(t)
+            IN  /\ Len(f) \in 1..3
+                /\ \A n \in 1..Len(f) : LeafSet(f[n].cells) \cap LeafSetOf(Fillers) = {}
 
 \* ---- ranges ----------------------------------------------------------------------------
 InitR == t \in {<<lo>> : lo \in 0..NLeaves}
